@@ -763,6 +763,226 @@ theorem gen_setString_fuel (f : Nat) (s : Heap) (this : Obj) (c : Cell) (hc : th
     (fun f => gen_setString f s this c hc hl p hp) f
 
 
+/-! ### swap -/
+
+theorem norm_cases (c c' : Cell) (h : norm c = norm c') :
+    c = c' ∨ ((c = .null ∨ c = .inl .null) ∧ (c' = .null ∨ c' = .inl .null)) := by
+  cases c with
+  | null => cases c' with
+    | null => left; rfl
+    | inl x => cases x <;> simp [norm] at h ⊢
+    | ptr b => simp [norm] at h
+  | ptr b => cases c' with
+    | null => simp [norm] at h
+    | inl x => cases x <;> simp [norm] at h
+    | ptr b' => left; simpa [norm] using h
+  | inl x => cases c' with
+    | null => cases x <;> simp [norm] at h ⊢
+    | ptr b => cases x <;> simp [norm] at h
+    | inl y => cases x <;> cases y <;> simp [norm] at h ⊢ <;> first | exact h | (subst h; rfl) | skip
+
+theorem copyCell_norm (s : Heap) (c c' : Cell) (h : norm c = norm c') :
+    (copyCell s c).1 = (copyCell s c').1 ∧ norm (copyCell s c).2 = norm (copyCell s c').2 := by
+  rcases norm_cases c c' h with rfl | ⟨h1 | h1, h2 | h2⟩ <;> (try subst h1) <;> (try subst h2) <;> simp [copyCell, norm]
+
+theorem release_norm (f : Nat) (s : Heap) (c c' : Cell) (h : norm c = norm c') : release f s c = release f s c' := by
+  rcases norm_cases c c' h with rfl | ⟨h1 | h1, h2 | h2⟩ <;> (try subst h1) <;> (try subst h2) <;> cases f <;> simp [release]
+
+theorem live_null (s : Heap) : Live s .null := ⟨fun x hx => (by cases hx), fun b hb => (by cases hb)⟩
+theorem live_inl_null (s : Heap) : Live s (.inl .null) := ⟨fun x hx => (by cases hx; rfl), fun b hb => (by cases hb)⟩
+
+theorem live_norm (s : Heap) (c c' : Cell) (h : norm c = norm c') (hl : Live s c) : Live s c' := by
+  rcases norm_cases c c' h with rfl | ⟨h1 | h1, h2 | h2⟩ <;> (try subst h1) <;> (try subst h2) <;>
+    first | exact hl | exact live_null s | exact live_inl_null s
+
+theorem copyCell_heap_ge (s : Heap) (c : Cell) (b : Nat) (blk : Deep.Block) (hb : s.heap b = some blk) :
+    ∃ blk', (copyCell s c).1.heap b = some blk' ∧ blk.ref ≤ blk'.ref := by
+  cases c with
+  | null => exact ⟨blk, hb, Nat.le_refl _⟩
+  | inl x => exact ⟨blk, hb, Nat.le_refl _⟩
+  | ptr b0 =>
+    simp only [copyCell, incr]
+    cases h0 : s.heap b0 with
+    | none => exact ⟨blk, hb, Nat.le_refl _⟩
+    | some blk0 =>
+      by_cases e : b = b0
+      · subst e; rw [hb] at h0; cases h0; exact ⟨{ blk with ref := blk.ref + 1 }, by simp [upd], by show blk.ref ≤ blk.ref + 1; omega⟩
+      · exact ⟨blk, by simp [upd, e, hb], Nat.le_refl _⟩
+
+theorem live_copyCell (s : Heap) (c0 c : Cell) (hl : Live s c) : Live (copyCell s c0).1 c := by
+  refine ⟨hl.1, fun b hb => ?_⟩
+  obtain ⟨blk, h1, h2⟩ := hl.2 b hb
+  obtain ⟨blk', h3, h4⟩ := copyCell_heap_ge s c0 b blk h1
+  exact ⟨blk', h3, by omega⟩
+
+theorem live_copy_result (s : Heap) (c : Cell) (hl : Live s c) : Live (copyCell s c).1 (copyCell s c).2 := by
+  cases c with
+  | null => exact live_inl_null s
+  | inl x => exact hl
+  | ptr b =>
+    obtain ⟨blk, h1, h2⟩ := hl.2 b rfl
+    refine ⟨(by intro x hx; cases hx), fun b' hb' => ?_⟩
+    cases hb'
+    exact ⟨{ blk with ref := blk.ref + 1 }, by simp [copyCell, incr, h1, upd], by show 1 ≤ blk.ref + 1; omega⟩
+
+/-- the temporary of `swap` outlives the release of the payload it was copied from: that block has two handles at that moment -/
+theorem live_tmp_after (f : Nat) (s : Heap) (cw cv : Cell) (h2 : Heap) (hl : Live s cw)
+    (hr : release (f + 1) (copyCell (copyCell s cw).1 cv).1 cw = some h2) : Live h2 (copyCell s cw).2 := by
+  cases cw with
+  | null => exact live_inl_null _
+  | inl x => exact ⟨hl.1, (by intro b hb; cases hb)⟩
+  | ptr b =>
+    obtain ⟨blk, hb, hge⟩ := hl.2 b rfl
+    have h1 : (copyCell s (.ptr b)).1.heap b = some { blk with ref := blk.ref + 1 } := by simp [copyCell, incr, hb, upd]
+    obtain ⟨blk', hb', hge'⟩ := copyCell_heap_ge (copyCell s (.ptr b)).1 cv b _ h1
+    simp only at hge'
+    have hne : blk'.ref ≠ 1 := by omega
+    simp only [release, hb', hne, if_false, Option.some.injEq] at hr
+    subst hr
+    refine ⟨(by intro x hx; cases hx), fun b' hbb => ?_⟩
+    cases hbb
+    exact ⟨{ blk' with ref := blk'.ref - 1 }, by simp [copyCell, upd], by show 1 ≤ blk'.ref - 1; omega⟩
+
+theorem copyCtor_spec (s : Heap) (raw : Obj) (src : Cell) (hl : Live s src) :
+    ∃ h o, VariantRep.copyCtor s raw src = some (h, o) ∧ h = (copyCell s src).1 ∧ ∃ c', o.cell = some c' ∧ norm c' = norm (copyCell s src).2 := by
+  have := gen_copyCtor s raw src hl
+  cases hX : VariantRep.copyCtor s raw src with
+  | none => simp [hX] at this
+  | some r =>
+    obtain ⟨h, o⟩ := r
+    simp only [hX, Option.bind_some] at this
+    cases hc : o.cell with
+    | none => simp [hc] at this
+    | some c' =>
+      simp only [hc, Option.map_some, Option.some.injEq, Prod.mk.injEq] at this
+      exact ⟨h, o, rfl, this.1, c', hc, this.2⟩
+
+/-- `operator=(const Variant&)` between distinct objects, in composable form: it answers iff the release of the old payload does, with that
+    heap, and leaves an object standing for (a representation of) the copied cell -/
+theorem assign_spec (f : Nat) (s : Heap) (this : Obj) (c src : Cell) (hc : this.cell = some c) (hl : Live s src) :
+    match release (f + 1) (copyCell s src).1 c with
+    | none => VariantRep.assign (release f) s this false src = none
+    | some h => ∃ o, VariantRep.assign (release f) s this false src = some (h, o) ∧ ∃ c', o.cell = some c' ∧ norm c' = norm (copyCell s src).2 := by
+  cases src with
+  | null =>
+    simp only [VariantRep.assign, cref, ctype, descOf, gen_clear f s this c hc, copyCell]
+    cases release (f + 1) s c <;> simp [Obj.cell, norm]
+  | inl x =>
+    have hx := hl.1 x rfl
+    simp only [VariantRep.assign, cref, ctype, descOf, gen_clear f s this c hc, copyCell]
+    cases release (f + 1) s c <;> cases x <;> simp [Obj.cell, norm, Val.type, Val.isBoxed] at hx ⊢
+  | ptr b =>
+    obtain ⟨blk, hb, hr⟩ := hl.2 b rfl
+    have h0 : blk.ref ≠ 0 := by omega
+    simp only [VariantRep.assign, cref, cincr, incrBlk, hb, copyCell, incr]
+    simp only [Bool.false_eq_true, if_false, Option.map_some, ne_eq, h0, not_false_eq_true, if_true, gen_clear f _ this c hc, ptrOf]
+    cases release (f + 1) _ c <;> simp [Obj.cell, norm]
+
+/-- what `a.swap(b)` does on two distinct variables holding `cv` and `cw`, in the deep model's steps: `tmp = copy(b)`;
+    `b = a` (copy of a, release of b's old payload); `a = tmp`; `~tmp` — result heap and the new cells of a and b -/
+def swapChain (f : Nat) (s : Heap) (cv cw : Cell) : Option (Heap × Cell × Cell) :=
+  (release (f + 1) (copyCell (copyCell s cw).1 cv).1 cw).bind fun h2 =>
+  (release (f + 1) (copyCell h2 (copyCell s cw).2).1 cv).bind fun h3 =>
+  (release (f + 1) h3 (copyCell s cw).2).map fun h4 =>
+    (h4, norm (copyCell h2 (copyCell s cw).2).2, norm (copyCell (copyCell s cw).1 cv).2)
+
+/-- `a.swap(a)` -/
+def swapChainSelf (f : Nat) (s : Heap) (cv : Cell) : Option (Heap × Cell) :=
+  (release (f + 1) (copyCell (copyCell s cv).1 (copyCell s cv).2).1 cv).bind fun h3 =>
+  (release (f + 1) h3 (copyCell s cv).2).map fun h4 => (h4, norm (copyCell (copyCell s cv).1 (copyCell s cv).2).2)
+
+
+/-- the translated `swap` on two distinct objects = the deep model's chain: the two cells are exchanged (up to the representation of null) -/
+theorem gen_swap (f : Nat) (s : Heap) (raw this other : Obj) (cv cw : Cell) (hv : this.cell = some cv) (hw : other.cell = some cw)
+    (hlv : Live s cv) (hlw : Live s cw) :
+    (VariantRep.swap (release f) s raw this other false).bind (fun r => r.2.1.cell.bind fun a => r.2.2.cell.map fun b => (r.1, norm a, norm b))
+      = swapChain f s cv cw := by
+  obtain ⟨h1, tmp, e1, rfl, ct, hct, hnt⟩ := copyCtor_spec s raw cw hlw
+  have hlv1 : Live (copyCell s cw).1 cv := live_copyCell s cw cv hlv
+  have a2 := assign_spec f (copyCell s cw).1 other cw cv hw hlv1
+  simp only [VariantRep.swap, Bool.false_eq_true, if_false, hw, e1, hv]
+  unfold swapChain
+  cases hr2 : release (f + 1) (copyCell (copyCell s cw).1 cv).1 cw with
+  | none => rw [hr2] at a2; simp only at a2; simp [a2]
+  | some h2 =>
+    rw [hr2] at a2; simp only at a2
+    obtain ⟨other', e2, co, hco, hno⟩ := a2
+    simp only [e2, hct, Option.bind_some]
+    have hlt : Live h2 ct := live_norm _ _ _ hnt.symm (live_tmp_after f s cw cv h2 hlw hr2)
+    have a3 := assign_spec f h2 this cv ct hv hlt
+    have cn := copyCell_norm h2 ct (copyCell s cw).2 hnt
+    rw [cn.1] at a3
+    cases hr3 : release (f + 1) (copyCell h2 (copyCell s cw).2).1 cv with
+    | none => rw [hr3] at a3; simp only at a3; simp [a3]
+    | some h3 =>
+      rw [hr3] at a3; simp only at a3
+      obtain ⟨this', e3, cth, hcth, hnth⟩ := a3
+      simp only [e3, Option.bind_some, gen_destruct f h3 tmp ct hct, release_norm (f + 1) h3 ct _ hnt]
+      cases release (f + 1) h3 (copyCell s cw).2 <;> simp [hcth, hco, hnth, hno, cn.2]
+
+theorem gen_swap_self (f : Nat) (s : Heap) (raw this : Obj) (cv : Cell) (hv : this.cell = some cv) (hlv : Live s cv) :
+    (VariantRep.swap (release f) s raw this this true).bind (fun r => r.2.1.cell.map fun a => (r.1, norm a))
+      = swapChainSelf f s cv := by
+  obtain ⟨h1, tmp, e1, rfl, ct, hct, hnt⟩ := copyCtor_spec s raw cv hlv
+  have hself : ∀ h, VariantRep.assign (release f) h this true cv = some (h, this) := fun h => by simp [VariantRep.assign]
+  have hlt : Live (copyCell s cv).1 ct := live_norm _ _ _ hnt.symm (live_copy_result s cv hlv)
+  have a3 := assign_spec f (copyCell s cv).1 this cv ct hv hlt
+  have cn := copyCell_norm (copyCell s cv).1 ct (copyCell s cv).2 hnt
+  rw [cn.1] at a3
+  simp only [VariantRep.swap, if_true, hv, e1, hself, hct]
+  unfold swapChainSelf
+  cases hr3 : release (f + 1) (copyCell (copyCell s cv).1 (copyCell s cv).2).1 cv with
+  | none => rw [hr3] at a3; simp only at a3; simp [a3]
+  | some h3 =>
+    rw [hr3] at a3; simp only at a3
+    obtain ⟨this', e3, cth, hcth, hnth⟩ := a3
+    simp only [e3, Option.bind_some, gen_destruct f h3 tmp ct hct, release_norm (f + 1) h3 ct _ hnt]
+    cases release (f + 1) h3 (copyCell s cv).2 <;> simp [hcth, hnth, cn.2]
+
+/-- …and that chain is the `swap` step of the function the driver runs -/
+theorem swapChain_dstep (ds : DblSem) (s : DState) (v w : Nat) (hvw : v ≠ w) (hv : v ≠ tmpVar) (hw : w ≠ tmpVar) :
+    (dstep ds s (.swap v w)).map (fun s' => (s'.h, norm (s'.vars v), norm (s'.vars w)))
+      = swapChain (s.h.next + 2) s.h (s.vars v) (s.vars w) := by
+  have hwv : w ≠ v := fun e => hvw e.symm
+  have htv : tmpVar ≠ v := fun e => hv e.symm
+  have htw : tmpVar ≠ w := fun e => hw e.symm
+  simp only [dstep, allocBound, assignFrom, swapChain, hwv, if_false]
+  cases hc : copyCell s.h (s.vars w) with
+  | mk h1 t =>
+    simp only [upd, hv, hw, if_false, if_true]
+    cases hc2 : copyCell h1 (s.vars v) with
+    | mk h1' cv' =>
+      simp only []
+      cases hr2 : release (s.h.next + 2 + 1) h1' (s.vars w) with
+      | none => simp
+      | some h2 =>
+        simp only [Option.map_some, Option.bind_some, upd, hv, hw, hvw, hwv, htv, htw, if_false, if_true]
+        cases hc3 : copyCell h2 t with
+        | mk h2' ct' =>
+          simp only []
+          cases hr3 : release (s.h.next + 2 + 1) h2' (s.vars v) with
+          | none => simp
+          | some h3 =>
+            simp only [Option.map_some, Option.bind_some, upd, hv, hw, hvw, hwv, htv, htw, if_false, if_true]
+            cases release (s.h.next + 2 + 1) h3 t <;> simp [upd, hv, hw, hvw, hwv, htv, htw]
+
+theorem swapChainSelf_dstep (ds : DblSem) (s : DState) (v : Nat) (hv : v ≠ tmpVar) :
+    (dstep ds s (.swap v v)).map (fun s' => (s'.h, norm (s'.vars v))) = swapChainSelf (s.h.next + 2) s.h (s.vars v) := by
+  have htv : tmpVar ≠ v := fun e => hv e.symm
+  simp only [dstep, allocBound, assignFrom, swapChainSelf, if_true]
+  cases hc : copyCell s.h (s.vars v) with
+  | mk h1 t =>
+    simp only [upd, hv, htv, if_false, if_true]
+    cases hc3 : copyCell h1 t with
+    | mk h2' ct' =>
+      simp only []
+      cases hr3 : release (s.h.next + 2 + 1) h2' (s.vars v) with
+      | none => simp
+      | some h3 =>
+        simp only [Option.map_some, Option.bind_some, upd, hv, htv, if_false, if_true]
+        cases release (s.h.next + 2 + 1) h3 t <;> simp [upd, hv, htv]
+
+
 /-! ### non-vacuity: a heap with a list block shared by two handles, an object pointing to it -/
 
 def exHeap : Heap := ⟨fun b => if b = 0 then some ⟨2, .list [.inl (.int 1), .null]⟩ else none, 1⟩
